@@ -118,10 +118,14 @@ def oracle(case, trace, ix, res):
     return nontrivial
 
 
-def evaluate(case):
+def evaluate_one(case):
     res = Result()
     trace, ix = run_case(case, sampling=True, run_on=False)
     shape_labels(case, trace, res)
     res.nontrivial = oracle(case, trace, ix, res)
     res.sample = dict(outcome=trace.outcome, samples=len(trace.samples))
     return res
+
+
+from ._rt import with_variants                     # noqa: E402
+evaluate = with_variants(evaluate_one)
